@@ -172,6 +172,16 @@ func buildUniverse() (*universe, error) {
 			return nil, err
 		}
 	}
+	// CA certificates with an extended-key-usage extension: reachable by id only (ca-eku unit), not
+	// part of the enumerated pools
+	var extra []*cert
+	clientOnly := func(d *desc) { d.eku = []gx509.ExtKeyUsage{gx509.ExtKeyUsageClientAuth} }
+	if err := add(&extra, r1.with(func(d *desc) { d.id = "R1-clientAuthEKU"; clientOnly(d) })); err != nil {
+		return nil, err
+	}
+	if err := add(&extra, ca("A", "A", "R1", kA, kR1).with(func(d *desc) { d.id = "A-clientAuthEKU"; clientOnly(d) })); err != nil {
+		return nil, err
+	}
 	a := ca("A", "A", "R1", kA, kR1)
 	b := ca("B", "B", "A", kB, kA)
 	interDescs := []desc{
